@@ -315,3 +315,43 @@ Definition period_value (t : str) : option ddd :=
   | _ => None
   end.
 Definition period_grammar (t : str) : bool := match period_value t with Some _ => true | None => false end.
+Definition period_grammar_ci (t : str) : bool := period_grammar (upper t).
+
+(* ---------------------------------------------------------------- the five grammars together *)
+(* what RFC 5545 says about a text offered to vDDDTypes.from_ical (the value of a DTSTART, DUE, TRIGGER,
+   RDATE, FREEBUSY ... property): every reading of it as DATE, DATE-TIME, TIME, DURATION or PERIOD.
+   The five grammars are pairwise disjoint (Proofs.CodecGrammarProofs.ddd_readings_unique), so
+   [ddd_value t = Some v] says "t is in exactly one of the five grammars and that one assigns it v". *)
+Definition ddd_readings (t : str) : list ddd :=
+  (match date_value t with Some (y, m, d) => [DDate y m d] | None => [] end)
+  ++ (match datetime_value t with Some v => [DDatetime v] | None => [] end)
+  ++ (match time_value t with Some (h, m, s, u) => [DTime h m s u] | None => [] end)
+  ++ (match dur_value t with Some s => [DDur s] | None => [] end)
+  ++ (match period_value t with Some p => [p] | None => [] end).
+Definition ddd_value (t : str) : option ddd :=
+  match ddd_readings t with [v] => Some v | _ => None end.
+(* the same with RFC 5234's case-insensitive literals (T, Z, P, W, D, H, M, S also in lower case) *)
+Definition ddd_grammar_ci (t : str) : bool := match ddd_value (upper t) with Some _ => true | None => false end.
+
+(* the values that the decoders get right: no second 60 (C03-F1), no UTC TIME (C03-F2), durations
+   inside timedelta's range (C03-F4) *)
+Definition dt_no_leap (v : dt) : bool := let '(_, _, _, _, _, s, _) := v in negb (s =? 60).
+Fixpoint ddd_guard (v : ddd) : bool :=
+  match v with
+  | DDate _ _ _ => true
+  | DDatetime x => dt_no_leap x
+  | DTime _ _ s u => negb (s =? 60) && negb u
+  | DDur s => td_ok s
+  | DPeriod a b => ddd_guard a && ddd_guard b
+  end.
+
+(* what the decoders return for a grammar-valid text denoting v, inside the guard or not (texts of at
+   most 4300 characters: CPython's int() digit limit) *)
+Fixpoint ddd_expected (v : ddd) : res ddd :=
+  match v with
+  | DDate _ _ _ => Ok v
+  | DDatetime x => if dt_no_leap x then Ok v else ValueErr
+  | DTime h m s u => if s =? 60 then ValueErr else Ok (DTime h m s false)
+  | DDur s => if (td_max <? Z.abs s) || (s <? td_min) then Escape s_overflow else Ok v
+  | DPeriod a b => to_value_err (bind (ddd_expected a) (fun x => bind (ddd_expected b) (fun y => Ok (DPeriod x y))))
+  end.
